@@ -1,12 +1,13 @@
 #!/bin/sh
-# run every check of a tier in sequence; prints one summary line per check
-tier="${1:-quick}"
+# run_all.sh [tier] [IDs...] : run checks of a tier in sequence; prints one summary line per check
+tier="${1:-quick}"; [ $# -gt 0 ] && shift
 cd "$(dirname "$0")"
 mkdir -p .work evidence replays
+ids="$*"; [ -z "$ids" ] && ids="C01 C02 C03 C04 C05 C06 C07 C08 C09 C10 C11 C12 C13 C14 C15 C16 C17 C18 C19 C20"
 rc=0
-for i in 01 02 03 04 05 06 07 08 09 10 11 12 13 14 15 16 17 18 19 20; do
-  ./check C$i --tier "$tier" > .work/run_C$i.log 2>&1; r=$?
-  tail -1 .work/run_C$i.log | cut -c1-200
-  [ $r -ne 0 ] && { echo "  -> exit $r"; rc=1; grep -E "VIOLATION|HARNESS|harness" .work/run_C$i.log | head -5; }
+for id in $ids; do
+  ./check $id --tier "$tier" > .work/run_$id.log 2>&1; r=$?
+  tail -1 .work/run_$id.log | cut -c1-200
+  [ $r -ne 0 ] && { echo "  -> exit $r"; rc=1; grep -E "VIOLATION|HARNESS|harness" .work/run_$id.log | head -5 | cut -c1-400; }
 done
 exit $rc
